@@ -118,7 +118,9 @@ Theorem C14_if_match_412_only_on_failure_refuted : forall pd,
 Proof. exact if_match_412_refuted. Qed.
 Print Assumptions C14_if_match_412_only_on_failure_refuted.
 
-(* ---- revalidation merge: HttpHeader::update in closed form ---- *)
+(* ---- revalidation merge: HttpHeader::update (as repaired by /repo 5d5369d) in closed form; update_added fresh =
+   the 304's fields that are not Vary, not hop-by-hop in the registered-header table and not nominated by the 304's
+   own Connection field(s) ---- *)
 Theorem C14_update_closed_form : forall old fresh,
   hdr_update old fresh = filter (fun h => negb (named_in (update_added fresh) h)) old ++ update_added fresh.
 Proof. exact hdr_update_closed. Qed.
@@ -143,6 +145,21 @@ Theorem C14_vary_not_updated : forall old fresh h,
   In h (hdr_update old fresh) -> hdr_id h = ID_VARY -> In h old.
 Proof. exact vary_not_updated. Qed.
 Print Assumptions C14_vary_not_updated.
+
+(* nothing hop-by-hop of the 304 enters the stored header ... *)
+Theorem C14_hop_by_hop_of_304_not_merged : forall old fresh h,
+  In h (hdr_update old fresh) ->
+  In h old \/
+  (In h fresh /\ is_hopbyhop (hdr_id h) = false /\ is_member (conn_value fresh) (h_name h) = false /\ hdr_id h <> ID_VARY).
+Proof. exact hop_by_hop_of_304_not_merged. Qed.
+Print Assumptions C14_hop_by_hop_of_304_not_merged.
+(* ... and a stored field disappears only because an end-to-end field of the 304 bears its name *)
+Theorem C14_stored_field_replaced_only_by_end_to_end_field : forall old fresh h,
+  In h old -> ~ In h (hdr_update old fresh) ->
+  exists e, In e fresh /\ ci_eqb (h_name h) (h_name e) = true /\
+            is_hopbyhop (hdr_id e) = false /\ is_member (conn_value fresh) (h_name e) = false.
+Proof. exact stored_field_deleted_only_by_end_to_end_304_field. Qed.
+Print Assumptions C14_stored_field_replaced_only_by_end_to_end_field.
 
 (* the registered-header table still maps each id to one name (needed for "by name"; re-checked against the regenerated table) *)
 Theorem C14_table_ids_unique : ids_unique hdr_table = true.
@@ -185,7 +202,10 @@ Proof. vm_compute. repeat split. Qed.
 (* a 304 carrying X-Foo replaces both stored x-foo fields, keeps ETag, appends in the 304's order *)
 Example C14_merge_example :
   let old := [one_field [69;84;97;103]%nat [49]; one_field [120;45;102;111;111]%nat [50]; one_field [88;45;70;111;111]%nat [51]] in
-  let fresh := [one_field [88;45;70;79;79]%nat [52]; one_field [86;97;114;121]%nat [53]] in
+  let fresh := [one_field [88;45;70;79;79]%nat [52]; one_field [86;97;114;121]%nat [53];
+                one_field [67;111;110;110;101;99;116;105;111;110]%nat [69;116;97;103];       (* Connection: Etag *)
+                one_field [69;84;97;103]%nat [54];                                          (* ETag: nominated, skipped *)
+                one_field [75;101;101;112;45;65;108;105;118;101]%nat [55]] in               (* Keep-Alive: hop-by-hop *)
   need_update old fresh = true /\
   update_on_not_modified old fresh = [one_field [69;84;97;103]%nat [49]; one_field [88;45;70;79;79]%nat [52]].
 Proof. vm_compute. repeat split. Qed.
